@@ -16,6 +16,8 @@ import (
 	"github.com/cespare/xxhash/v2"
 	"github.com/klauspost/compress/gzhttp"
 	"go.uber.org/ratelimit"
+
+	"github.com/cloudflare/pint/internal/verifhook"
 )
 
 var ErrUnsupported = errors.New("unsupported API")
@@ -239,6 +241,9 @@ func (prom *Prometheus) requestContext(ctx context.Context) (context.Context, co
 
 func queryWorker(prom *Prometheus, queries chan queryRequest) {
 	for job := range queries {
+		if verifhook.Enabled {
+			verifhook.At("promapi.job", prom.name+"|"+prom.safeURI+"|"+job.query.Endpoint()+"|"+strconv.FormatUint(job.query.CacheKey(), 16))
+		}
 		job.result <- processJob(prom, job)
 	}
 }
